@@ -37,7 +37,12 @@ func c01Baselines() []*c01base {
 	w1 := world.Honest("T")
 	// header SVN fields that differ from each other and between their bytes (a transposition is then visible)
 	w1.Spec.PceSvn, w1.Spec.QeSvn = 0x0d07, 0x0208
+	// integer fields of the QE report whose bytes all differ (a byte-order slip is then visible), with a QE
+	// identity that matches them
+	w1.Spec.MiscSelect, w1.Spec.IsvProdID, w1.Spec.IsvSvn = 0x12345678, 0x0102, 0x0304
+	w1.QeID.Miscselect, w1.QeID.IsvProdID = "78563412", 0x0102
 	w1.Parts = w1.Spec.Parts()
+	w1.Finish()
 	w2 := world.Honest("T")
 	w2.Spec.Auth = []byte{}
 	w2.Spec.Extra = world.Fill("extra", 16)
@@ -258,6 +263,40 @@ func runC01(r *mc.Run) {
 				}
 			}
 		}
+		// ... and every field of two or more bytes with its bytes in reverse order
+		var revs []tr
+		for _, rg := range []struct {
+			name string
+			base int
+			fs   []world.Field
+		}{{"header", 0, world.HeaderFields}, {"td_body", 48, world.BodyFields}, {"qe_report", b.reg.QEReport[0], world.QEReportFields}} {
+			for _, f := range rg.fs {
+				if f.Len >= 2 {
+					revs = append(revs, tr{rg.name, rg.base, f, f})
+				}
+			}
+		}
+		doneR := r.Parallel(len(revs)*2, func(k int) {
+			t, l := revs[k/2], []int{world.L0, world.L2}[k%2]
+			id := fmt.Sprintf("reverse/%s/%s/%s", b.name, lvlName[l], t.f.Name)
+			if !r.Want(id) {
+				return
+			}
+			m := append([]byte(nil), b.raw...)
+			fld := m[t.base+t.f.Off : t.base+t.f.Off+t.f.Len]
+			orig := append([]byte(nil), fld...)
+			for i, j := 0, len(fld)-1; i < j; i, j = i+1, j-1 {
+				fld[i], fld[j] = fld[j], fld[i]
+			}
+			if bytes.Equal(orig, fld) {
+				r.Eval(id, false, "reverse:palindrome")
+				return
+			}
+			err := world.SafeVerifyRaw(m, b.w.Options(l))
+			out := c01Judge(r, id, "reverse:"+t.region+":", m, err, b, t.region)
+			r.Eval(id, true, "reverse:"+t.region+":"+out)
+		})
+		r.SectionDone(mc.Section{Name: "field-byte-reversals/" + b.name, Evaluations: int64(doneR), Exhaustive: doneR == len(revs)*2})
 		done := r.Parallel(len(trs)*2, func(k int) {
 			t, l := trs[k/2], []int{world.L0, world.L2}[k%2]
 			id := fmt.Sprintf("swap/%s/%s/%s<->%s", b.name, lvlName[l], t.f.Name, t.g.Name)
